@@ -232,6 +232,15 @@ def is_filter(interp, st, lst, src, pred, upto, node=None):
         finally:
             st.guards.pop()
         return z3.ForAll([k], lst.kept(k) == z3.And(k >= 0, k < to_z3(up), to_z3(p)))
+    if same_source(lst, src):
+        # the source itself: the filter that keeps every index below upto (and upto must be the whole length)
+        k = z3.Int(V.fresh_name("fk"))
+        st.guards.append(z3.And(k >= 0, k < to_z3(n)))
+        try:
+            p = pred(k)
+        finally:
+            st.guards.pop()
+        return z3.And(to_z3(up) == to_z3(n), z3.ForAll([k], z3.Implies(z3.And(k >= 0, k < to_z3(n)), to_z3(p))))
     # concrete-length lists (python list, SymList/Grid with constant length): compare with the filter computed index by index
     items = None
     if isinstance(lst, (list, tuple)):
